@@ -140,7 +140,7 @@ def enum_spec(index):
     nname, ntext = docs[(di + 1) % len(docs)]
     if variant == 1:
         text = text.replace("\r\n", "\n").replace("\n", "\r\n")
-    p, q = "/feat/%s.feature" % name.replace("/", "_"), "/feat/next_%s.feature" % nname.replace("/", "_")
+    p, q = "/simfs/feat/%s.feature" % name.replace("/", "_"), "/simfs/feat/next_%s.feature" % nname.replace("/", "_")
     ops = [{"op": "stream", "s": i, "paths": [p]} for i in range(8)]
     ops.append({"op": "stream", "s": 7, "paths": [q, p, p]})
     ops.append({"op": "cli", "argv": [p, q]})
@@ -164,7 +164,7 @@ def _mk_fs(rng, nfiles, tname):
         text = workload.restyle(rng, text)
         if rng.random() < 0.05:
             text += rng.choice(["\U0001d4b3 non-BMP \U0001f389", "\u2028line sep", "tab\there", "\x0bvt", "nul\x00byte", "\x85nel", "\x0cff"])
-        p = "/%s/f%d.feature" % (tname, i)
+        p = "/simfs/%s/f%d.feature" % (tname, i)
         r = rng.random()
         if r < 0.04:
             b = bytearray(text.encode("utf-8") or b"x")
@@ -183,7 +183,7 @@ def _mk_fs(rng, nfiles, tname):
         paths.append(p)
         labels.append(label)
     if rng.random() < 0.05:
-        paths.append("/%s/does-not-exist.feature" % tname)
+        paths.append("/simfs/%s/does-not-exist.feature" % tname)
         labels.append("missing")
     return files, binfiles, faults, paths, labels
 
@@ -204,6 +204,18 @@ def gen_hist(rng):
     nstreams = rng.randint(1, 3)
     streams = [{"o": ALL_OPTS[rng.randrange(8)] if rng.random() < 0.6 else [True, True, True]} for _ in range(nstreams)]
     ops = _stream_ops(rng, paths, nstreams, rng.randint(1, 4))
+    if len(ops) > 1 and rng.random() < 0.35:
+        # the file behind a uri changes between two reads of the same uri
+        used = [p for op in ops for p in op["paths"] if p in files and p not in faults]
+        if used:
+            p = used[rng.randrange(len(used))]
+            label, text = workload.pick_doc(rng, "en", p_pool=0.5, p_corpus=0.1, p_damage=0.3)
+            if text.count("\n") > 60:
+                text = workload.truncate_at(text, rng.randint(5, 60))
+            at = rng.randint(1, len(ops) - 1)
+            ops.insert(at, {"op": "write", "path": p, "text": text})
+            ops.insert(at + 1, {"op": "stream", "s": ops[at - 1]["s"], "paths": [p], "consumer": {"k": "drain"}})
+            labels.append("rewrite:" + label)
     if rng.random() < 0.2:
         good = [p for p in paths if p in files and p not in faults]
         if good:
@@ -216,11 +228,11 @@ def gen_hist(rng):
     if rng.random() < 0.03:
         # path collision: the file system holds an entry whose NAME is the whole text of a source
         kind = rng.random()
-        victim = "/t0/collide.feature"
+        victim = "/simfs/t0/collide.feature"
         if kind < 0.4:
             text = rng.choice([".", "..", "/"])
         else:
-            text = rng.choice(["Feature: x", "notes.txt", "/t0/f0.feature"])
+            text = rng.choice(["Feature: x", "notes.txt", "/simfs/t0/f0.feature"])
             if text not in files:
                 files[text] = "Feature: content of the colliding file\n  Scenario: s\n    Given from the other file\n"
                 spec["keep_files"] = [text]
